@@ -23,7 +23,18 @@ from collections import Counter
 from simkit.harness import History, LoopConfig, SimRun, anyio
 
 from anyio import CancelScope, create_task_group, current_time, get_cancelled_exc_class, sleep
-from anyio.functools import lru_cache
+from anyio.functools import cache as _anyio_cache, lru_cache as _anyio_lru_cache
+
+
+def lru_cache(*, maxsize, typed, ttl, always_checkpoint):
+    """The decorator under test, through whichever of its spellings means these parameters: cache(f) is
+    lru_cache(maxsize=None), bare lru_cache(f) is lru_cache(maxsize=128); otherwise the keyword form."""
+    if not typed and ttl is None and not always_checkpoint:
+        if maxsize is None:
+            return _anyio_cache
+        if maxsize == 128:
+            return _anyio_lru_cache
+    return _anyio_lru_cache(maxsize=maxsize, typed=typed, ttl=ttl, always_checkpoint=always_checkpoint)
 
 DUR = [0, 0, 0.125, 0.25, 0.5]
 KEYS = [1, 2, 3, 4]
